@@ -66,11 +66,14 @@ Qed.
 
 (* ------------------------------------------------------------------------------------------ *)
 (* one node *)
-Record vn (P : N -> Prop) (nd : node) : Prop := {
+Record vn (P : N -> N -> Prop) (nd : node) : Prop := {
   vn_c : ChainRespCli.cl_ok P (n_cli nd);
   vn_l : ChainRespCli.lk_ok P (n_link nd);
-  vn_q : forall r, In r (Server.s_respq (n_srv nd)) -> ChainRespSrv.b_ok P (Server.resp_body r);
-  vn_h : forall hr, In hr (Server.s_handlers (n_srv nd)) -> ChainRespSrv.st_ok P (Server.h_st hr) }.
+  vn_q : forall r, In r (Server.s_respq (n_srv nd)) -> ChainRespSrv.b_ok P (Server.resp_id r) (Server.resp_body r);
+  vn_h : forall hr, In hr (Server.s_handlers (n_srv nd)) -> ChainRespSrv.st_ok P (Server.h_id hr) (Server.h_st hr) }.
+
+(* the value-only instance: P id v = "some handler of node i finished with v" *)
+Definition Vc (dn : dnl) (i : nat) : N -> N -> Prop := fun _ v => V dn i v.
 
 Lemma vn_sv P nd : vn P nd -> ChainRespSrv.sv P (Server.set_t (n_srv nd) (n_link nd)).
 Proof. intros [A B C D]. constructor; assumption. Qed.
@@ -78,7 +81,7 @@ Lemma vn_cv P nd :
   vn P nd -> ChainRespCli.cv P (Client.upd_tr (n_cli nd) (n_link nd) (Client.fused (n_cli nd)) (Client.plog (n_cli nd))).
 Proof. intros [A B C D]. split; assumption. Qed.
 
-Lemma vn_mono (P P' : N -> Prop) nd : (forall v, P v -> P' v) -> vn P nd -> vn P' nd.
+Lemma vn_mono (P P' : N -> N -> Prop) nd : (forall id v, P id v -> P' id v) -> vn P nd -> vn P' nd.
 Proof.
   intros M H. pose proof (ChainRespSrv.sv_mono P P' _ M (vn_sv P nd H)) as [A B C].
   pose proof (ChainRespCli.cv_mono P P' _ M (vn_cv P nd H)) as [D E].
@@ -88,12 +91,13 @@ Qed.
 (* a client step on a node *)
 Lemma vn_cstep P nd o nd' l :
   cstep nd o = (nd', l) -> (forall g, o <> Client.Tr g) -> vn P nd ->
-  vn P nd' /\ forall v, In (Client.OCall (Client.CDone (Client.OReply v))) l -> P v.
+  vn P nd' /\ forall v, In (Client.OCall (Client.CDone (Client.OReply v))) l -> exists id, P id v.
 Proof.
   unfold cstep. intros E HT H. pose proof (vn_cv P nd H) as K.
   destruct (Client.step ctp cfuel _ o) as [c1 l1] eqn:ES. injection E as <- <-.
-  destruct (ChainRespCli.cv_step P cfuel _ _ _ _ ES HT K) as [[A B] R]. split; [|exact R].
-  destruct H as [_ _ C D]. constructor; assumption.
+  destruct (ChainRespCli.cv_step P cfuel _ _ _ _ ES HT K) as [[A B] R]. split.
+  - destruct H as [_ _ C D]. constructor; assumption.
+  - intros v Hin. destruct (R v Hin) as (i & c & _ & _ & Pc). eexists. exact Pc.
 Qed.
 
 (* server steps on a node *)
@@ -135,9 +139,10 @@ Proof.
     intros [H|[H|[H|[]]]]; try discriminate; injection H as <- <-; split; reflexivity.
 Qed.
 
-Lemma vn_sstep_handler (P P' : N -> Prop) k st nd nd' l :
-  sstep nd (Server.OHandlerPoll k st) = (nd', l) -> vn P nd -> (forall v, P v -> P' v) ->
-  (forall v, In (Server.OHDone k (Server.BOk v)) l -> P' v) ->
+Lemma vn_sstep_handler (P P' : N -> N -> Prop) k st nd nd' l :
+  sstep nd (Server.OHandlerPoll k st) = (nd', l) -> vn P nd -> (forall id v, P id v -> P' id v) ->
+  (forall hr v, nth_error (Server.s_handlers (n_srv nd)) k = Some hr ->
+                In (Server.OHDone k (Server.BOk v)) l -> P' (Server.h_id hr) v) ->
   vn P' nd' /\ n_cli nd' = n_cli nd.
 Proof.
   unfold sstep. intros E H M F. pose proof (vn_sv P nd H) as K.
@@ -145,7 +150,7 @@ Proof.
   destruct (Server.execute_poll k st _) as [s1 l1] eqn:EX. injection E as <- <-.
   split; [|reflexivity]. apply vn_of_sv.
   - eapply ChainRespSrv.sv_execute_poll; [exact EX|exact K|exact M|].
-    intros v Hin. apply F. apply in_or_app. left. exact Hin.
+    intros hr v Eh Hin. apply (F hr v Eh). apply in_or_app. left. exact Hin.
   - intros id x Hx v Ev. apply M. eapply (vn_c _ _ H); eassumption.
 Qed.
 
@@ -167,9 +172,9 @@ Qed.
 Record VS (d : nat) (p : dnl * bool) (ch : chain) : Prop := {
   vs_ok : snd p = true;
   vs_len : length ch = d;
-  vs_n : forall i nd, nth_error ch i = Some nd -> vn (V (fst p) i) nd }.
+  vs_n : forall i nd, nth_error ch i = Some nd -> vn (Vc (fst p) i) nd }.
 
-Lemma vs_set_node d p i nd ch : VS d p ch -> vn (V (fst p) i) nd -> VS d p (set_node i nd ch).
+Lemma vs_set_node d p i nd ch : VS d p ch -> vn (Vc (fst p) i) nd -> VS d p (set_node i nd ch).
 Proof.
   intros [A B C] H. constructor; [exact A|rewrite length_set_node; exact B|].
   intros j x E. destruct (Nat.eq_dec i j) as [->|Ne].
@@ -216,7 +221,7 @@ Proof.
       destruct rc as [|oc|]; try (unfold vstep; cbn; rewrite andb_true_r; reflexivity).
       destruct oc; try (unfold vstep; cbn; rewrite andb_true_r; reflexivity).
       unfold vstep. cbn [fst snd dn_obs val_chk]. rewrite (has_dn_V dn 0 v), andb_true_r; [reflexivity|].
-      apply R. left. reflexivity. }
+      destruct (R v (or_introl eq_refl)) as [id0 X]. exact X. }
     rewrite E1. apply IH. intros v Hv. apply R. right. exact Hv. }
   rewrite F. apply vs_set_node; [exact S|exact K].
 Qed.
@@ -281,13 +286,13 @@ Qed.
 Lemma vs_mono d dn dn' ch : incl dn dn' -> VS d (dn, true) ch -> VS d (dn', true) ch.
 Proof.
   intros I [A B C]. constructor; [reflexivity|exact B|]. intros i nd E.
-  eapply vn_mono; [|apply C, E]. intros v. apply V_mono, I.
+  eapply vn_mono; [|apply C, E]. intros id0 v. apply V_mono, I.
 Qed.
 
-Lemma vs_inner_poll (P : N -> Prop) k nd nx nd1 nx1 st :
+Lemma vs_inner_poll (P : N -> N -> Prop) k nd nx nd1 nx1 st :
   inner_poll k nd nx = (nd1, nx1, st) -> vn P nx ->
   vn P nx1 /\ n_cli nd1 = n_cli nd /\ n_link nd1 = n_link nd /\ n_srv nd1 = n_srv nd
-  /\ forall v, st = Server.SFinish v -> P v.
+  /\ forall v, st = Server.SFinish v -> exists id, P id v.
 Proof.
   unfold inner_poll. destruct (nth_error (n_hs nd) k) as [h|].
   2: { intros [= <- <- <-] H. split; [exact H|]. split; [reflexivity|]. split; [reflexivity|].
@@ -299,7 +304,7 @@ Proof.
                 | [Client.OCall (Client.CDone (Client.OReply v0))] => Server.SFinish v0
                 | [Client.OCall (Client.CDone _)] => Server.SFail
                 | _ => Server.SRun
-                end = Server.SFinish v -> P v).
+                end = Server.SFinish v -> exists id, P id v).
   { intros nxc nx2 l j ES Hc. destruct (vn_cstep P _ _ _ _ ES ltac:(discriminate) Hc) as [K R].
     split; [exact K|]. intros v Ev. apply R.
     destruct l as [|o1 rest]; [discriminate|].
@@ -323,11 +328,11 @@ Proof. destruct b; reflexivity. Qed.
 
 (* one handler poll with the step st on node i: the common part *)
 Lemma vs_handler_step d dn i k st nd nd1 l (first : list cobs) :
-  vn (V dn i) nd -> forallb vneutral first = true ->
+  vn (Vc dn i) nd -> forallb vneutral first = true ->
   sstep nd (Server.OHandlerPoll k st) = (nd1, l) ->
   (forall v, st = Server.SFinish v -> negb (S i <? d) || has_dn dn (S i) v = true) ->
   exists dn', fold_left (vstep d) (first ++ flat_map (tr_sobs i) l) (dn, true) = (dn', true)
-              /\ incl dn dn' /\ vn (V dn' i) nd1 /\ n_cli nd1 = n_cli nd.
+              /\ incl dn dn' /\ vn (Vc dn' i) nd1 /\ n_cli nd1 = n_cli nd.
 Proof.
   intros Hn NF ES HV. rewrite fold_left_app, (fold_neutral d first _ NF).
   assert (FH : exists dn', fold_left (vstep d) (flat_map (tr_sobs i) l) (dn, true) = (dn', true)
@@ -347,9 +352,9 @@ Proof.
         destruct b; try reflexivity. destruct (hdone_sstep _ _ _ _ _ _ _ ES Ho) as [[=] _].
       + intros k' v' Hin. destruct (hdone_sstep _ _ _ _ _ _ _ ES Hin) as [[=] _]. }
   destruct FH as (dn' & E' & I' & J'). exists dn'. split; [exact E'|]. split; [exact I'|].
-  eapply (vn_sstep_handler (V dn i) (V dn' i)); [exact ES|exact Hn| |].
-  - intros v. apply V_mono, I'.
-  - intros v Hin. exists k. apply J', Hin.
+  eapply (vn_sstep_handler (Vc dn i) (Vc dn' i)); [exact ES|exact Hn| |].
+  - intros id0 v. apply V_mono, I'.
+  - intros hr v _ Hin. exists k. apply J', Hin.
 Qed.
 
 Lemma vn_eq P nd nd' :
@@ -398,12 +403,12 @@ Proof.
     destruct (sstep nd1 (Server.OHandlerPoll k st1)) as [nd2 l0] eqn:ES. pinj E1.
     pose proof (vs_n _ _ _ HS _ _ EX) as Hx. cbn [fst] in Hx.
     destruct (vs_inner_poll _ _ _ _ _ _ _ EI Hx) as (Kx & C1 & C2 & C3 & R).
-    assert (Hn1 : vn (V dn i) nd1) by (eapply vn_eq; eassumption).
+    assert (Hn1 : vn (Vc dn i) nd1) by (eapply vn_eq; eassumption).
     destruct (vs_handler_step d dn i k st1 nd1 nd2 l0 first Hn1 NF ES) as (dn' & E' & I' & K & _).
-    { intros v Ev. rewrite (has_dn_V dn (S i) v (R v Ev)). apply orb_true_r. }
+    { intros v Ev. destruct (R v Ev) as [id0 X]. rewrite (has_dn_V dn (S i) v X). apply orb_true_r. }
     rewrite E'. pose proof (vs_mono d dn dn' ch I' HS) as S1.
     apply vs_set_node; [apply vs_set_node; [exact S1|exact K]|].
-    cbn [fst]. eapply vn_mono; [|exact Kx]. intro v. apply V_mono, I'.
+    cbn [fst]. eapply vn_mono; [|exact Kx]. intros id0 v. apply V_mono, I'.
   - destruct (sstep nd (Server.OHandlerPoll k st)) as [nd1 l0] eqn:ES. pinj E1.
     destruct (vs_handler_step d dn i k st nd nd1 l0 first Hn NF ES) as (dn' & E' & I' & K & _).
     { intros v _. apply nth_error_None in EX. rewrite (vs_len _ _ _ HS) in EX.
